@@ -1810,6 +1810,8 @@ def _family(cls, bases):
 def _pure(e, stable) -> bool:
     if isinstance(e, ast.Constant):
         return True
+    if isinstance(e, ast.Lambda) and not (e.args.args or e.args.vararg or e.args.kwarg or e.args.kwonlyargs) and isinstance(e.body, ast.Constant):
+        return True
     if isinstance(e, ast.Name):
         return e.id in stable
     if isinstance(e, (ast.Tuple, ast.List, ast.Set)):
@@ -1843,7 +1845,9 @@ def propagate_fresh_locals(modules, known, rep):
         if key not in kl:
             continue
         known_locals = set(kl[key])  # dict name -> [stores, loads]
-        if any(isinstance(x, FUNC + (ast.Lambda,)) and x is not fn for x in ast.walk(fn)):
+        if any(isinstance(x, FUNC) and x is not fn for x in ast.walk(fn)):
+            continue
+        if any(isinstance(x, ast.Lambda) and not isinstance(x.body, ast.Constant) for x in ast.walk(fn)):
             continue
         params = set(_params(fn))
         count, val, node_of = {}, {}, {}
